@@ -300,6 +300,50 @@ def h_merge_dict(ka: int, kb: int, pa: bool, wa: int, pb: bool, wb: int) -> bool
     return ok
 
 
+LAGV = ["<unset>", None, 7, 8]
+
+
+def check_none(ai, bi):
+    """Optional fields: an explicit None is a value like any other (ForbidChange: equal or MergeForbiddenError)"""
+    from annet.mesh.peer_models import DirectPeerDTO
+    from annet.mesh.basemodel import merge, MergeForbiddenError
+    def mk(i):
+        return DirectPeerDTO(**({} if LAGV[i] == "<unset>" else {"lag": LAGV[i], "multihop": LAGV[i]}))
+    res = {}
+    for name, (x, y) in (("ab", (ai, bi)), ("ba", (bi, ai))):
+        try:
+            r = merge(mk(x), mk(y))
+            res[name] = ("ok", vars(r).get("lag", "<unset>"), vars(r).get("multihop", "<unset>"))
+        except MergeForbiddenError:
+            res[name] = ("forbidden",)
+    a, b = LAGV[ai], LAGV[bi]
+    if a == "<unset>" or b == "<unset>" or a == b:
+        v = b if a == "<unset>" else a
+        want = ("ok", v, v)
+    else:
+        want = ("forbidden",)
+    bad = []
+    if res["ab"] != want:
+        bad.append("explicit-None-not-treated-as-value" if None in (a, b) else "equal-or-forbidden")
+    if res["ab"] != res["ba"]:
+        bad.append("not-commutative")
+    return bad, {"a": str(a), "b": str(b), "merge(a,b)": str(res["ab"]), "merge(b,a)": str(res["ba"]), "want": str(want)}
+
+
+def h_merge_none(case: int) -> bool:
+    """
+    pre: 0 <= case < 16
+    post: _ == True
+    """
+    c = pick(case, 16)
+    with NoTracing():
+        ai, bi = c % 4, c // 4
+        bad, detail = check_none(ai, bi)
+        rt.record({"a": ai, "b": bi}, not bad, [ai, bi] if ai and bi else None, detail=detail,
+                  fingerprint="C15:merge:%s" % (bad[0] if bad else ""))
+    return not bad
+
+
 # ---------------------------------------------------------------- B: executor
 class FInterface:
     def __init__(self, name, neighbor_fqdn=None, neighbor_port=None):
@@ -693,6 +737,7 @@ def plan(tier):
         dict(name="merge.flat", func="h_merge", shards=9 if q else 25, timeout=280 if q else 2400, per_path=60),
         dict(name="merge.assoc", func="h_merge_assoc", shards=12 if q else 60, timeout=280 if q else 2400, per_path=60),
         dict(name="merge.nested", func="h_merge_nested", shards=12 if q else 64, timeout=280 if q else 2400, per_path=60),
+        dict(name="merge.none", func="h_merge_none", shards=1, timeout=100),
         dict(name="merge.dict", func="h_merge_dict", shards=1, timeout=200 if q else 900, per_path=60),
         dict(name="template", func="z_templates", kind="py", shards=1, timeout=150 if q else 900),
         dict(name="exec", func="h_exec", shards=16, timeout=280 if q else 1200),
@@ -707,6 +752,9 @@ def replay(obligation, case):
         a, b = _mk_family(*case["a"]), _mk_family(*case["b"])
         bad = _nested_laws(a, b)
         return {"ok": not bad, "detail": {"violated": bad}, "fingerprint": "C15:merge-nested:%s" % (bad[0] if bad else "")}
+    if obligation == "merge.none":
+        bad, detail = check_none(case["a"], case["b"])
+        return {"ok": not bad, "detail": detail, "fingerprint": "C15:merge:%s" % (bad[0] if bad else "")}
     if obligation == "merge.dict":
         return {"ok": True, "detail": "dict replay not implemented", "fingerprint": None}
     if obligation == "template":
